@@ -358,6 +358,7 @@ package collection
 //@   ensures  rwAdded[rw] == upd(old(rwAdded[rw]), v, old(rwAdded[rw][v]) + 1)
 //@   ensures  implies(old(rwInv(rw)), rwInv(rw) && now < rw.lastTime + rw.interval)
 //@   ensures  rwE[rw] == old(rwE[rw]) + old(elapsed(rw))
+//@   ensures  implies(old(rw.lastTime <= now), rw.lastTime - old(rw.lastTime) == rw.interval * old((now - rw.lastTime) / rw.interval))
 //@   ensures  rwBagAt[rw] == upd(old(rwBagAt[rw]), rwE[rw], upd(old(rwBagAt[rw])[rwE[rw]], v, old(rwBagAt[rw])[rwE[rw]][v] + 1))
 //@   modifies rwAdded[rw], rw.offset, rw.lastTime, rwE[rw], rwBagAt[rw], bkBag
 
@@ -467,6 +468,7 @@ package collection
 //@   ensures  rwOK(rw)
 //@   ensures  implies(old(rwInv(rw)), rwInv(rw) && now < rw.lastTime + rw.interval)
 //@   ensures  rwE[rw] == old(rwE[rw]) + old(elapsed(rw))
+//@   ensures  implies(old(rw.lastTime <= now), rw.lastTime - old(rw.lastTime) == rw.interval * old((now - rw.lastTime) / rw.interval))
 //@   modifies rw.offset, rw.lastTime, rwE[rw], bkBag
 //@   loop 0: modifies bkBag
 //@   loop 0: invariant 0 <= i && i <= span && rw.offset == offset
